@@ -39,6 +39,8 @@ ASSUMPTIONS = [
     "job being up front or scheduled from a handler, before the first event / between events / in the final drain (there "
     "only 'at most once' is demanded of the new job, 'exactly once' of the scheduling one); one time (2) earlier than "
     "everything else",
+    "failing jobs: ValueError (all scenarios with <= 2 jobs) and, in 32 scenarios, asyncio.CancelledError raised inside the "
+    "job (it awaits an already cancelled future) - nobody cancelled the run, so it must go on and return",
     "events that come into being through a job: job 0 (before the last event) pushes an event stamped its own time / its "
     "own time + 0.3 to a second subscribed source; the order clauses between jobs and events apply to that event too",
     "a job with the same time as an event may run before or after that timestamp's events; the clock a job sees is only "
@@ -89,6 +91,12 @@ def scenarios(tier, seed):
             for maxc in (1, 2):
                 for raising in (None, 0):
                     out.append(((t0, EARLY), maxc, mode, raising, 1))
+    # a job that fails with asyncio.CancelledError (raising = "c0": job 0 awaits a cancelled future), between events, with
+    # later jobs and events
+    for jt in ((15, 25), (15, 35), (25, 30), (15, 15), (10, 25), (15, 25, 40), (25, 35, 45), (5, 15, 35)):
+        for maxc in (1, 2):
+            out.append((jt, maxc, ("up",) * len(jt), "c0", 1))
+            out.append((jt, maxc, ("h10",) + ("up",) * (len(jt) - 1), "c0", 1))
     # jobs that PUSH EVENTS: job 0 pushes an event stamped (its own time + delta) to a second, otherwise empty, subscribed
     # source; the other jobs fall before / into / after the same gap between two primary events. (Job 0 before the last
     # event: what a job of the final drain creates is outside the property.)
@@ -182,6 +190,12 @@ def make_run(sc, states=None):
                 if raising == i:
                     trace.append(("job-end", i, "raises"))
                     raise ValueError("job fails")
+                if raising == "c0" and i == 0:
+                    # the job fails with CancelledError: it awaits a future that was cancelled elsewhere
+                    trace.append(("job-end", i, "raises-cancelled"))
+                    fut = asyncio.get_running_loop().create_future()
+                    fut.cancel()
+                    await fut
                 await gates.suspend("j")
                 trace.append(("job-end", i, "returns"))
             return j
